@@ -16,13 +16,13 @@ CHECKS = {
          "reference decoder's distance accounting trusted; 8 KiB window in the hist8k/longer builds",
          "runtime monitor on match distances via instrumented independent decoder; differential dictionary round trips; state-snapshot comparison"),
  "C02": ("exploration", "Valid streams from a deflate-grammar generator (expected bytes known from the token list, no decoder involved), from zlib and from ISA-L are decoded in every wrapper mode, stateless and streaming under hostile schedules, under each decode-kernel CPU level; result, finish state, end position and checksum field must equal the independent reference.",
-         "generator emits only valid streams (cross-checked by the reference decoder: a disagreement is a harness failure); gzip header with optional fields split across calls is a recorded known finding",
+         "generator emits only valid streams (cross-checked by the reference decoder: a disagreement is a harness failure)",
          "runtime differential oracle (grammar generator + independent inflate) over stream shapes, wrapper modes, schedules and decode kernels"),
  "C06": ("fault_enumeration", "Hostile inputs: 14 classes of grammar-level faults injected by the generator, bit flips / substitutions / truncations / trailer edits of valid streams, random bytes; decoded stateless with output sizes {0,1,7,8,exact-1,exact,exact+1,big} and streaming with random chunking in guard-page mappings on the assembly and the all-C ASan+bounds builds; completion is accepted only if the lenient independent decoder agrees; documented codes, progress and error classes monitored.",
          "reference decoder is lenient exactly where RFC 1951 is; error class asserted only for isolated injected faults with ample output space",
          "fault injection at grammar and byte level + runtime monitors (guard pages, ASan/bounds, progress, return-code set) + independent decodability oracle"),
  "C07": ("exploration", "Call-history exploration: compression and decompression driven by adversarial schedules (chunk-size tables around internal thresholds, refill/drain disciplines, flush changes, late end_of_stream, zero-length calls, fresh guard-page mapping per chunk released on consumption, every single split point for small streams); per-call event log checked for conservation and bounded progress, results compared with reference/one-shot decode.",
-         "flush requests repeated only while unflushed input exists; gzip optional-header split finding tolerated",
+         "flush requests repeated only while unflushed input exists",
          "offline checker over per-call event logs + differential oracle against one-shot/reference results"),
  "C11": ("fault_enumeration", "Producer: trailers of every wrapped stream compared with reference CRC-32/ISIZE/Adler-32 of the input. Verifier: single-bit flips, substitutions, truncations and trailer edits of valid wrapped streams, with splits inside the trailer; success accepted only if the trailer bytes present match the reference checksum of the delivered bytes; state->crc compared after completion.",
          "reference CRC/Adler anchored to published check values; *_NO_HDR modes do not verify (documented)",
